@@ -27,7 +27,7 @@ def groups(sc, tier):
             g.name = "C16.via_" + g.name
     # the one place where the library touches process-global state: the numeric locale is switched for the duration of the
     # scan and restored (ghost model of setlocale, bounded harness of C07)
-    loc = C07.groups(sc, tier)
+    loc = [g for g in C07.groups(sc, tier) if ".CompoundParser" in g.name]   # the lemmas on the outer CompoundParser carry the locale obligations
     for g in loc:
         g.name = "C16.via_" + g.name
     return gs + loc
